@@ -20,6 +20,31 @@ from harness import sigblock as sb
 from harness.fw import VERIF, Check, Driver, hexs
 from harness.zipwriter import layout
 
+# hand-modelled functions: a changed AST escalates the search (ck.pins_changed), it is not a verdict
+PINS = [
+    ("androguard/core/apk/__init__.py", "APK.read_uint32_le"),
+    ("androguard/core/apk/__init__.py", "APK.parse_signatures_or_digests"),
+    ("androguard/core/apk/__init__.py", "APK.parse_v2_v3_signature"),
+    ("androguard/core/apk/__init__.py", "APK.parse_v2_signing_block"),
+    ("androguard/core/apk/__init__.py", "APK.parse_v3_signing_block"),
+    ("androguard/core/apk/__init__.py", "APK.is_signed_v2"),
+    ("androguard/core/apk/__init__.py", "APK.is_signed_v3"),
+    ("androguard/core/apk/__init__.py", "APK.is_signed_v31"),
+    ("androguard/core/apk/__init__.py", "APK.has_duplicate_apk_signature_ids"),
+    ("androguard/core/apk/__init__.py", "APK.get_certificates_der_v2"),
+    ("androguard/core/apk/__init__.py", "APK.get_certificates_der_v3"),
+    ("androguard/core/apk/__init__.py", "APK.get_certificates_der_v31"),
+    ("androguard/core/apk/__init__.py", "APK.get_public_keys_der_v2"),
+    ("androguard/core/apk/__init__.py", "APK.get_public_keys_der_v3"),
+    ("androguard/core/apk/__init__.py", "APK.get_public_keys_der_v31"),
+    ("androguard/core/apk/__init__.py", "APK.get_raw"),
+    ("androguard/core/apk/__init__.py", "APKV2SignatureBlock"),
+    ("androguard/core/apk/__init__.py", "APKV2Signer"),
+    ("androguard/core/apk/__init__.py", "APKV3Signer"),
+    ("androguard/core/apk/__init__.py", "APKV2SignedData"),
+    ("androguard/core/apk/__init__.py", "APKV3SignedData"),
+]
+
 SCHEMES = (("v2", sb.ID_V2, False), ("v3", sb.ID_V3, True), ("v31", sb.ID_V31, True))
 
 
@@ -299,6 +324,9 @@ def run(ck: Check):
     import logging
     logging.disable(logging.WARNING)          # apkInspector warns through the root logger on malformed zips
     rng = ck.rng
+    ck.pins_changed(PINS)
+    big = not ck.quick
+    esc = ck.quick and ck.escalated             # a modelled function changed: 4x sizes in the quick tier (not a verdict)
     ck.run_gen("sigblock")
     ck.prove(exes=["drv_C33"])
     drv = Driver("drv_C33")
@@ -307,7 +335,7 @@ def run(ck: Check):
                "attributes; 0-3 unknown pairs; duplicate ids; shuffled order; 19% v3.1 without v3; 6% no block); "
                "distinct = distinct file bytes; non-trivial = file with a signing block")
     ncorpus = run_corpus(ck)
-    nvalid = 1500 if ck.quick else 20000
+    nvalid = 20000 if big else 6000 if esc else 1500
     stats = {}
     dist = {"no_block": 0, "with_v2": 0, "with_v3": 0, "with_v31": 0, "v31_without_v3": 0, "duplicate_ids": 0,
             "unknown_pairs": 0, "signers_total": 0, "multi_digest_lists": 0, "corpus_witnesses": ncorpus}
@@ -349,7 +377,7 @@ def run(ck: Check):
     ck.compare("file-valid", reqs, real, model)
 
     # malformed files: correspondence only (the property says nothing about them)
-    nmal = 2500 if ck.quick else 30000
+    nmal = 30000 if big else 10000 if esc else 2500
     reqs, real = [], []
     errs = {}
     for i in range(nmal):
@@ -364,7 +392,7 @@ def run(ck: Check):
     ck.cover(dist={"mutated_files": nmal, "mutated_outcomes": dict(sorted(errs.items())), **stats})
 
     # values and sequences handed to the inner parsers directly
-    nval = 1500 if ck.quick else 20000
+    nval = 20000 if big else 6000 if esc else 1500
     reqs, real = [], []
     a = fresh(TINY)
     outcomes = {}
